@@ -14,14 +14,22 @@ P = {
             'CPython 3.11 positions; pieces of an f-string are exempt from extent equality (3.11 gives each piece the extent of the whole literal)', '7/C02'),
     'C03': (False, '', '', '', '7/C03'),
     'C04': (False, '', '', '', '7/C04'),
-    'C05': (False, '', '', '', '7/C05'),
-    'C06': (False, '', '', '', '7/C06'),
-    'C07': (False, '', '', '', '7/C07'),
+    'C05': (True, 'bounded-exhaustive enumeration of character strings, lexeme sequences and corpus layouts through the real lexer in both configurations and three modes; reference-free tiling invariants plus agreement with CPython\'s C tokenizer',
+            'Every text inside the bound is lexed by the default and full-lexer builds; ranges, gaps, spellings, number/string payloads, NEWLINE/INDENT/DEDENT discipline and Comment/NonLogicalNewline tokens are checked on every token, and NAME/NUMBER/STRING/operator tokens are compared with _tokenize.TokenizerIter.',
+            'CPython 3.11 C tokenizer for significant tokens (layout tokens are not compared with it); invariants computed from (Tok, range) and the text', '7/C05'),
+    'C06': (True, 'exhaustive enumeration of the escape space (all one-char escapes x prefixes x quotes, all \\x, all octal, all \\uXXXX, \\U boundaries, \\N names), prefixes, newline shapes, concatenations, all numeric strings <=5/6 over a 16-symbol alphabet, boundary integers and float midpoints, vs CPython values',
+            'Every literal inside the stated products is parsed by the real parser in expression mode and its value compared with ast.parse; literals CPython rejects with a literal error must be rejected.',
+            'CPython 3.11 literal evaluation; lone surrogates compared as U+FFFD', '7/C06'),
+    'C07': (True, 'bounded-exhaustive enumeration of f-string bodies over a 28-lexeme alphabet (<=3/4) x 4 wrappers, a product of field shapes (expression x conversion x spec x = form x neighbours) and of literal concatenations, vs CPython 3.11\'s parts and field-expression positions',
+            'Every f-string inside the bound that CPython accepts must give the same JoinedStr/FormattedValue/Constant sequence, conversion, nested spec and inner-expression ranges.',
+            'CPython 3.11 (pre-PEP 701) f-string compiler; the u-kind marker of constants inside nested format specs is masked (CPython marks them inconsistently)', '7/C07'),
     'C08': (False, '', '', '', '7/C08'),
     'C09': (True, 'exhaustive enumeration of G_ref sentences (valid and invalid) and of all short character strings, each through every entry point at 6 start offsets, against the offset-0 result shifted/projected in the harness',
             'For every text inside the bound, every entry point (parse*, lex*, Parse::* for Mod/Suite/Stmt/Expr/Identifier/Constant and all 55 generated node types, deprecated helpers) in three modes at offsets {0,1,7,400,2^31,2^32-2-len} must equal the shifted / projected offset-0 result.',
             'reference = parse(text, mode) at offset 0 (self-relation, no external oracle)', '7/C09'),
-    'C10': (False, '', '', '', '7/C10'),
+    'C10': (True, 'exhaustive enumeration of corpus sentences under comment/blank-line/CRLF layouts, all short character strings and number shapes, each through the four feature builds; pairwise comparison with the default build',
+            'Acceptance, tree, mandatory ranges, error kind and offset, and (for full-lexer) the filtered token stream are compared for every text inside the bound.',
+            'self-relation between builds of the same source tree', '7/C10'),
     'C11': (True, 'deviation-bounded exhaustive enumeration of expression derivations (G_ref expression grammar d<=2/3, operator-and-parenthesis sub-grammar d<=3/4) plus a constant/f-string alphabet, each through parse -> unparse -> parse -> unparse',
             'Every expression tree the parser produces inside the bound is rendered, re-parsed, compared up to ranges/ctx and rendered again; the operator sub-grammar at one more deviation contains every (parent, child, side) triple of the precedence levels with and without parentheses.',
             'self-relation on the real parser and unparser', '7/C11'),
